@@ -366,6 +366,10 @@ class World:
         return S.equal(a, b)
 
     def setitem_model(self, obj, idx, v, it, node):
+        if isinstance(obj, SVal):
+            # item store into an opaque object: a logged effect
+            it.calls.append(('setitem', (obj, idx, v), None))
+            return True
         if isinstance(obj, SMapCell):
             obj.store(idx, v)
             return True
@@ -445,6 +449,18 @@ class World:
             return IterSpec(len(items), lambda k: items[k])
         if isinstance(v, str):
             return IterSpec(len(v), lambda k: v[k])
+        if isinstance(v, S.SIter):
+            # iterating a one-shot iterator pulls what is left of it
+            rest = v.remaining()
+            it_obj = v
+
+            def item(k, rest=rest):
+                return rest.get(k)
+            sp = IterSpec(rest.length, item, source=v)
+            sp.consume = lambda n: setattr(
+                it_obj, 'pos', z3.simplify(it_obj.pos + (
+                    n if z3.is_expr(n) else z3.IntVal(n))))
+            return sp
         if isinstance(v, SSeq):
             return IterSpec(v.length, lambda k: v.get(k), source=v)
         if isinstance(v, SStr):
@@ -487,13 +503,19 @@ class World:
             if z3.is_expr(n):
                 n = z3.simplify(n)
                 if not z3.is_int_value(n):
-                    raise Unsupported(
-                        'loop over symbolic length without invariant '
-                        '(line %d)' % node.lineno)
+                    forced = it.path.concretize(n)
+                    if forced is None:
+                        raise Unsupported(
+                            'loop over symbolic length without invariant '
+                            '(line %d)' % node.lineno)
+                    n = z3.IntVal(forced)
                 n = n.as_long()
             broke = False
+            consume = getattr(ispec, 'consume', None)
             for k in range(n):
                 it.assign_target(node.target, ispec.item(k), fr)
+                if consume:
+                    consume(1)
                 try:
                     it.exec_block(node.body, fr)
                 except BreakSig:
@@ -570,10 +592,14 @@ class World:
         else:
             go = it.branch(it.truth(it.eval(node.test, fr)))
         if not go:
+            if is_for and hasattr(ispec, 'consume'):
+                ispec.consume(ln)
             it.exec_block(node.orelse, fr)
             return
         if is_for:
             it.assign_target(node.target, ispec.item(n), fr)
+            if hasattr(ispec, 'consume'):
+                ispec.consume(n + 1)
         try:
             it.exec_block(node.body, fr)
         except BreakSig:
